@@ -70,3 +70,6 @@ fn o3_5_reorder_advance_step() {
     assert!(ordered && calls == rb.base_id.wrapping_sub(base0), "[C14,C15] every id below the new base reported exactly once, in order");
     assert!(rb.base_id.wrapping_sub(nb) <= 2, "[C03] base ends at the requested id or just past buffered ids adjacent to it");
 }
+
+pub(crate) fn base_of(rb: &ReorderBuffer) -> u32 { rb.base_id }
+pub(crate) fn count_of(rb: &ReorderBuffer) -> u32 { rb.frame_count }
